@@ -25,6 +25,7 @@ VARIABLES tid, l, fails, ex, arr     \* arr: digest of all caller-owned arrays a
 tvars == <<objs, handles, last, tid, l, fails, ex, arr>>
 
 TraceDim(d) == Traces[tid].dims[d]
+TraceCanon(p) == Traces[tid].canon[p]
 Ref == Traces[tid].ref
 Ev  == Traces[tid].events[l]
 
@@ -70,6 +71,7 @@ Matches(ev) ==
     [] ev.ev = "Clone"        -> ev.obj \in Live /\ Clone(ev.obj)
     [] ev.ev = "Pickle"       -> ev.obj \in Live /\ PickleRoundTrip(ev.obj)
     [] ev.ev = "Fit"          -> ev.obj \in Live /\ Fit(ev.obj, ev.data)
+    [] ev.ev = "FitTransform" -> ev.obj \in Live /\ FitTransform(ev.obj, ev.data)
     [] ev.ev = "SetThreshold" -> ev.obj \in Live /\ SetThreshold(ev.obj, ev.t)
     [] ev.ev = "Calibrate"    -> ev.obj \in Live /\ Calibrate(ev.obj, ev.v, ev.s)
     [] ev.ev = "Query"        -> ev.obj \in Live /\ Query(ev.obj, ev.q)
@@ -95,6 +97,9 @@ OutcomeFails(ev) ==
                       ELSE Ref.matrix[last'[4][1]][last'[4][2]])
          THEN {} ELSE {"C17.handed_out_objects_unaffected"}
     [] ev.ev = "Fit" -> IF ev.exc = "" THEN {} ELSE {"TRACE.fit_raised"}
+    [] ev.ev = "FitTransform" ->
+         IF ev.exc # "" THEN {"TRACE.fit_raised"}
+         ELSE IF ev.out = Ref.fit_transform[last'[4][1]][last'[4][2]] THEN {} ELSE {"G17.fit_transform_is_fit_then_transform"}
     [] ev.ev \in {"New", "SetParams", "Clone"} ->
          IF ev.identical THEN {} ELSE {"C18.get_params_returns_identical_objects"}
     [] OTHER -> {}
@@ -114,13 +119,14 @@ NextT ==
                                    \* the reference value of a model term is the fit of a FRESH estimator constructed with the
                                    \* same parameters: a fit that differs from it also breaks "clone / set_params behave
                                    \* identically when fitted" (C18)
-                                   \cup (IF Ev.ev = "Fit" /\ "C17.model_is_function_of_last_fit" \in StateFails(objs', Ev.post, Ev.arrays, arr)
+                                   \cup (IF Ev.ev \in {"Fit", "FitTransform"} /\ "C17.model_is_function_of_last_fit" \in StateFails(objs', Ev.post, Ev.arrays, arr)
                                          THEN {"C18.fit_equals_fit_of_fresh_estimator_with_same_parameters"} ELSE {}))
      \/ /\ ~ENABLED Matches(Ev)
         /\ UNCHANGED <<objs, handles, last>>
         /\ fails' = fails \cup Tag({"TRACE.no_matching_action"})
   /\ ex' = ex \cup StateClauses \cup OutcomeClauses(Ev)
-              \cup (IF Ev.ev = "Fit" THEN {"C18.fit_equals_fit_of_fresh_estimator_with_same_parameters"} ELSE {})
+              \cup (IF Ev.ev \in {"Fit", "FitTransform"} THEN {"C18.fit_equals_fit_of_fresh_estimator_with_same_parameters"} ELSE {})
+              \cup (IF Ev.ev = "FitTransform" THEN {"G17.fit_transform_is_fit_then_transform"} ELSE {})
   /\ arr' = Ev.arrays      \* a change is blamed on the event that made it, once
   /\ l' = l + 1 /\ UNCHANGED tid
 
